@@ -202,7 +202,10 @@ Fixpoint ends (fl : rflags) (mem : list N) (h : hir) {struct h} : N -> list N :=
   | HEmpty => fun i => [i]
   | HLit b => step1 (wide fl) (eq_nocase (nocase fl) b) mem
   | HGroup h' => ends fl mem h'
-  | HRep h' k greedy => rep_ends (ends fl mem h') k greedy (nlen mem)
+  | HRep h' k greedy =>
+      (* a repetition never ends before its start nor after the end of the haystack; stated here
+         once rather than derived from the tables *)
+      fun i => filter (fun j => (i <=? j) && (j <=? nlen mem)) (rep_ends (ends fl mem h') k greedy (nlen mem) i)
   end.
 
 (* ------------------------------------------------------------------ derived notions *)
